@@ -17,10 +17,13 @@ import (
 const c25N = 6 // node universe, node 0 is the local one
 
 var c25 struct {
-	lists  [][]int
-	acked  [c25N]bool
-	calls  [c25N]int
-	fail   [c25N]bool
+	ecFail   [2]bool
+	ecTried  [2]int
+	ecStored [2]bool
+	lists    [][]int
+	acked    [c25N]bool
+	calls    [c25N]int
+	fail     [c25N]bool
 }
 
 func c25node(i int) netmap.NodeInfo {
@@ -32,11 +35,14 @@ func c25node(i int) netmap.NodeInfo {
 type c25net struct{}
 
 func (c25net) GetContainerNodes(cid.ID) (ContainerNodes, error) { return nil, errors.New("not used") }
-func (c25net) IsLocalNodePublicKey(k []byte) bool                { return len(k) == 1 && k[0] == 0xB0 }
-func (c25net) GetEpochBlock(uint64) (uint32, error)              { return 0, nil }
-func (c25net) GetEpochBlockByTime(uint32) (uint32, error)        { return 0, nil }
+func (c25net) IsLocalNodePublicKey(k []byte) bool               { return len(k) == 1 && k[0] == 0xB0 }
+func (c25net) GetEpochBlock(uint64) (uint32, error)             { return 0, nil }
+func (c25net) GetEpochBlockByTime(uint32) (uint32, error)       { return 0, nil }
 
-type c25cnr struct{ reps []uint }
+type c25cnr struct {
+	reps []uint
+	ec   []iec.Rule
+}
 
 func (c c25cnr) nodeLists() [][]netmap.NodeInfo {
 	nn := make([][]netmap.NodeInfo, len(c25.lists))
@@ -47,10 +53,10 @@ func (c c25cnr) nodeLists() [][]netmap.NodeInfo {
 	}
 	return nn
 }
-func (c c25cnr) Unsorted() [][]netmap.NodeInfo                      { return c.nodeLists() }
+func (c c25cnr) Unsorted() [][]netmap.NodeInfo                     { return c.nodeLists() }
 func (c c25cnr) SortForObject(oid.ID) ([][]netmap.NodeInfo, error) { return c.nodeLists(), nil }
-func (c c25cnr) PrimaryCounts() []uint                              { return c.reps }
-func (c c25cnr) ECRules() []iec.Rule                                { return nil }
+func (c c25cnr) PrimaryCounts() []uint                             { return c.reps }
+func (c c25cnr) ECRules() []iec.Rule                               { return c.ec }
 
 // replaced collaborators (rename overlay)
 func (t *distributedTarget) sendObject(obj object.Object, encObj encodedObject, node nodeDesc) error {
